@@ -10,6 +10,8 @@ type stream = {
 }
 
 let streams : (string * stream) list = [
+  ("C07", { gen = C07.gen; check = C07.check; search = C07.search; describe = C07.describe; tags = C07.tags });
+  ("C08", { gen = C08.gen; check = C08.check; search = C08.search; describe = C08.describe; tags = C08.tags });
   ("C09", { gen = C09.gen; check = C09.check; search = C09.search; describe = C09.describe; tags = C09.tags });
   ("C10", { gen = C10.gen; check = C10.check; search = C10.search; describe = C10.describe; tags = C10.tags });
   ("C11", { gen = C11.gen; check = C11.check; search = C11.search; describe = C11.describe; tags = (fun _ _ -> []) });
